@@ -606,6 +606,41 @@ impl Ctx {
                 self.log(format!("t={} T{} #{} drop it{}", now(), self.me(), i, it));
                 self.drop_iter(*it, true);
             }
+            Op::ForgetIter { it } => {
+                self.log(format!("t={} T{} #{} forget it{}", now(), self.me(), i, it));
+                if let Some(slot) = self.iters.get_mut(*it).and_then(|s| s.take()) {
+                    let mut w = wlock(&self.world);
+                    if let Some(c) = w.live_iters.get_mut(&slot.obj.id) {
+                        *c = c.saturating_sub(1);
+                    }
+                    w.rec.abandoned_iters += 1;
+                    w.rec.forgotten_iters += 1;
+                    drop(w);
+                    // leaks the iterator together with its Arc<Obj> (so nothing dangles)
+                    std::mem::forget(slot);
+                }
+            }
+            Op::DebugFmt { slot } => {
+                let obj = self.get_obj(*slot);
+                self.log(format!(
+                    "t={} T{} #{} debug-format slot={} {}",
+                    now(),
+                    self.me(),
+                    i,
+                    slot,
+                    obj.as_ref()
+                        .map_or("(empty)".to_string(), |o| format!("obj{}", o.id))
+                ));
+                if let Some(o) = obj {
+                    self.begin_call(Some(&o));
+                    let (_r, _steps) = exec::guarded(0, || {
+                        let s = format!("{:?}", o.re.0);
+                        std::hint::black_box(s.len())
+                    });
+                    self.end_call();
+                    wlock(&self.world).rec.debug_fmts += 1;
+                }
+            }
         }
     }
 }
